@@ -306,3 +306,47 @@ def h_e_hist3_11(opb: bool, k2: int, k3: int, a: int, b: int) -> bool:
     post: _
     """
     return untraced(_h3, pickb(opb), 11, pick(k2, 0, 11), pick(k3, 0, 11), pick(a, 0, 2), pick(b, 0, 2))
+
+
+def _twice(kind, a, b, off, opb):
+    """two groups of the same shape in two formulas (the second one after `off` other variables): the second group
+    hands out its own identifiers, nothing is remembered from the first"""
+    def mk(F):
+        if kind == 0:
+            return F.new_block(a + 1, b + 1)
+        if kind == 1:
+            return F.new_combinations(a + 2, b + 1)
+        if kind == 2:
+            return F.new_permutations(a + 1, min(b + 1, a + 1))
+        if kind == 3:
+            return F.new_words(a + 1, b + 1)
+        if kind == 4:
+            return F.new_combinations_with_replacement(a + 1, b + 1)
+        if kind == 5:
+            return F.new_mapping(a + 1, b + 1)
+        return F.new_binary_mapping(a + 1, b + 2)
+    F1 = OPB() if opb else CNF()
+    g1 = mk(F1)
+    list(g1())
+    F2 = CNF()
+    F2.update_variable_number(off)
+    g2 = mk(F2)
+    ids = list(g2)
+    if ids != list(range(off + 1, off + 1 + len(ids))) or len(ids) != len(list(g1)):
+        return False
+    if sorted(g2()) != ids or sorted(g2.to_dict().values()) != ids:
+        return False
+    for idx in g2.indices():
+        v = g2(*idx)
+        if v not in ids or tuple(g2.to_index(v)) != tuple(idx):
+            return False
+    F2.add_clause([g2(*idx) for idx in g2.indices()][:3])
+    return _ok(F2) and F2.number_of_variables() == off + len(ids)
+
+
+def h_e_twice(kind: int, a: int, b: int, off: int, opb: bool) -> bool:
+    """
+    pre: 0 <= kind <= 6 and 0 <= a <= 2 and 0 <= b <= 2 and 0 <= off <= 3
+    post: _
+    """
+    return untraced(_twice, pick(kind, 0, 6), pick(a, 0, 2), pick(b, 0, 2), pick(off, 0, 3), pickb(opb))
